@@ -11,6 +11,7 @@ mod c18;
 mod c16;
 mod c15;
 mod c11;
+mod c12;
 pub mod filters;
 
 use std::io::Write;
@@ -44,6 +45,7 @@ fn main() {
         "C16" => c16::run(&mut ctx),
         "C15" => c15::run(&mut ctx),
         "C11" => c11::run(&mut ctx),
+        "C12" => c12::run(&mut ctx),
         other => {
             eprintln!("unknown property {}", other);
             std::process::exit(2);
